@@ -330,6 +330,34 @@ pub fn build_prop(ctx: &Ctx) -> Property {
             .witness(&["released", "claims-error"]),
         );
     }
+    // Time::valid_now() reads the clock: compared with valid_at(now) on claims far from the boundary
+    p.subs.push(
+        Sub::new("valid-now", 4, "Time::valid_now() (the only clock read in the library) and valid_now().with_leeway(1 h) on claims one day before / after the current instant: same verdicts as the statement gives for `now`", |idx, describe| {
+            let mut o = Outcome::new();
+            let now = Timestamp::now();
+            let day = Duration::from_secs(86_400);
+            let (exp, nbf, want) = match idx {
+                0 => (Some(now + day), Some(now - day), true),
+                1 => (Some(now - day), None, false),
+                2 => (None, Some(now + day), false),
+                _ => (None, None, true),
+            };
+            let c = RegisteredClaims { iss: None, sub: None, aud: None, exp, nbf, iat: None, jti: None };
+            if describe {
+                o.sample = Some(json!({"exp": format!("{exp:?}"), "nbf": format!("{nbf:?}"), "expected_accept": want}));
+            }
+            let r1 = subject(|| Time::valid_now().validate(&c).is_ok());
+            let r2 = subject(|| Time::valid_now().with_leeway(Duration::from_secs(3600)).validate(&c).is_ok());
+            if r1 == Ok(want) && r2 == Ok(want) {
+                o.class("clock-based-validator-agrees");
+            } else {
+                o.violate("validators/valid_now", format!("Time::valid_now() gives {r1:?} / with leeway {r2:?}, the statement gives {want}"), json!({"exp": format!("{exp:?}"), "nbf": format!("{nbf:?}")}));
+            }
+            o.digest = idx;
+            o
+        })
+        .witness(&["clock-based-validator-agrees"]),
+    );
     unseal_sub::<backends::V1>(&mut p);
     unseal_sub::<backends::V2>(&mut p);
     unseal_sub::<backends::V3>(&mut p);
